@@ -186,10 +186,11 @@ def split_tasks(version):
         splits = [("minor", ["0", "1"]), ("S", ["U", "C"]), ("MS", [ABSENT, "X", "U", "C"])]
         # MS absent/X go together (cheap), U and C apart
         groups = [
-            [("minor", [mi]), ("S", [s]), ("MS", ms)]
+            [("minor", [mi]), ("S", [s]), ("MS", ms), ("AV", [av])]
             for mi in ["0", "1"]
             for s in ["U", "C"]
             for ms in ([ABSENT, "X"], ["U"], ["C"])
+            for av in ["N", "A", "L", "P"]
         ]
     else:
         groups = [[("AV", [a]), ("AC", [b]), ("Au", [c])] for a in ["L", "A", "N"] for b in ["H", "M", "L"] for c in ["M", "S", "N"]]
